@@ -13,7 +13,7 @@ use std::cell::RefCell;
 use std::io::{self, Read};
 use std::rc::Rc;
 
-pub const RULE_C10: &str = "Each run draws from one tape: a symbol file from the record grammar (every record kind, LF/CRLF/CRCRLF/mixed endings, numeric extremes, long names up to 79 000 B, bulk filler to cross the 10/20/40/80/160 KiB buffer thresholds, optional byte-level corruption, last line terminated or not), and a chunk plan made of segments (full reads | 1-byte trickle | uniform 1-64 | geometric | threshold T+-3 for T in {5,10,20,40,80,160} KiB | structural cuts inside CRLF, right after/before a newline, inside a FUNC's sublines | one split at a uniformly drawn offset); one run in eight instead takes a file of at most 1500 bytes and parses it once per single split point, k = 0..=len, exhaustively (sync; every eighth k also async). The same bytes go through SymbolFile::parse over a ChunkReader and/or SymbolFile::parse_async over a simulated HTTP body (chunk sizes from the plan, 0-k Pending polls per chunk) and are compared with SymbolFile::from_bytes of the whole buffer. NON-TRIVIAL iff the streamed parse saw at least two reads/chunks that ended strictly inside the input and the input has at least two lines. DISTINCT = distinct (content digest, sequence of delivered chunk sizes) among non-trivial runs.";
+pub const RULE_C10: &str = "Each run draws from one tape: a symbol file from the record grammar (every record kind, LF/CRLF/CRCRLF/mixed endings, numeric extremes, long names up to 79 000 B (one file in twelve: up to 400 000 B, for which only the callback clauses are judged), bulk filler to cross the 10/20/40/80/160 KiB buffer thresholds, optional byte-level corruption, last line terminated or not), and a chunk plan made of segments (full reads | 1-byte trickle | uniform 1-64 | geometric | threshold T+-3 for T in {5,10,20,40,80,160} KiB | structural cuts inside CRLF, right after/before a newline, inside a FUNC's sublines | one split at a uniformly drawn offset); one run in eight instead takes a file of at most 1500 bytes and parses it once per single split point, k = 0..=len, exhaustively (sync; every eighth k also async). The same bytes go through SymbolFile::parse over a ChunkReader and/or SymbolFile::parse_async over a simulated HTTP body (chunk sizes from the plan, 0-k Pending polls per chunk) and are compared with SymbolFile::from_bytes of the whole buffer. NON-TRIVIAL iff the streamed parse saw at least two reads/chunks that ended strictly inside the input and the input has at least two lines. DISTINCT = distinct (content digest, sequence of delivered chunk sizes) among non-trivial runs.";
 
 pub const RULE_C09: &str = "As C10's generator plus: lines of 1 B .. 2 MiB (thresholds 5K/10K/20K/40K/79K/80K/160K/320K/1M/2M +- delta), giant single lines of 2-8 MiB, files ending inside a long line, and reader faults (EINTR, EIO at a tape-chosen read, early clean EOF, one bit flipped / one chunk delivered twice / one chunk dropped; HTTP body reset or clean cut). Oracles per run: no panic; read calls <= 2*len+64; every buffer offered to the reader <= 160 KiB; peak live heap during the parse within a fixed window bound when the retained result is tiny; LoadError only if a reader error was injected and then always; the callback's bytes are a prefix of the delivered stream; with all delivered lines < 79 000 B the outcome equals from_bytes(delivered); an inserted line >= 400 KiB is dropped and the result equals the parse of the file without it. NON-TRIVIAL iff the run exercised buffer growth, recovery, or a fired reader fault. DISTINCT = distinct (content digest, delivered chunk sizes, fault) among non-trivial runs.";
 
@@ -405,6 +405,15 @@ pub fn draw_content(for_c09: bool) -> Content {
     if for_c09 && chance("content.c09.longer", 1, 3) {
         opts.long_lines = true;
         opts.max_long = max_long;
+    }
+    if !for_c09 && chance("content.c10.overlong", 1, 12) {
+        // C10 beyond its equality clause: lines above the parser's cap.  The tables may then
+        // differ with the chunking (which lines get dropped is not promised); what the callback
+        // is handed must still be the input, byte for byte, in order, once.
+        probe("e1.c10_overlong_callback_only");
+        opts.long_lines = true;
+        opts.long_den = 2;
+        opts.max_long = 400_000;
     }
     let mut doc = symgen::gen_doc(&opts);
     if size_class >= 4 {
